@@ -189,6 +189,66 @@ def oracle_one_negative_box(rng):
     return None
 
 
+def oracle_conditional(rng):
+    """at most one negative coefficient over a conic X (incl. equality blocks followed by other cones, a box in the negative
+    orthant): both forms are lower bounds on sampled points of X, primal <= dual, and the optimisation-based cover presolve
+    does not change either value"""
+    import sageopt.coniclifts as cl
+    import sageopt.coniclifts.constraints.set_membership.sage_cones as sc
+    from sageopt.relaxations import sage_sigs as ss
+    n = rng.randint(1, 2)
+    kind = rng.choice(['box', 'eq_box', 'eq_box', 'eq_box', 'mixed', 'ball', 'negbox', 'negbox'])
+    X, _ = sagecorr.make_domain(rng, n, kind)
+    rows = []
+    while len(rows) < rng.randint(1, 4):
+        a = [Fraction(rng.choice([0, 1, -1, 2, 1]), rng.choice([1, 2])) for _ in range(n)]
+        if a not in [r for r, _ in rows]:
+            rows.append((a, Fraction(rng.choice([1, 2, 5]))))
+    if len(rows) >= 2 and rng.random() < 0.7:
+        k = rng.randrange(len(rows))
+        rows[k] = (rows[k][0], Fraction(-rng.choice([1, 2])))
+    f = sig(rows, n)
+    ub = math.inf
+    for _ in range(120):
+        x, w = sagecorr.sample_domain_point(rng, n, kind, X)
+        if x is None:
+            break
+        ub = min(ub, float(f(np.array(x))))
+    if not math.isfinite(ub):
+        return None
+    saved = dict(sc.SETTINGS)
+    vals = {}
+    try:
+        with warnings.catch_warnings():
+            warnings.simplefilter('ignore')
+            for pre in (False, True):
+                cl.presolve_trivial_age_cones(pre)
+                for form in ('primal', 'dual'):
+                    try:
+                        vals[(form, pre)] = ss.sig_relaxation(f, X, form=form).solve(verbose=False)
+                    except RuntimeError as e:
+                        vals[(form, pre)] = ('error', ' '.join(str(e).split())[:80])
+    finally:
+        sc.SETTINGS.clear()
+        sc.SETTINGS.update(saved)
+    desc = 'f=%s on X=%s' % ([([str(t) for t in a], str(c)) for a, c in rows], kind)
+    for key, (st, val) in vals.items():
+        if st == 'solved' and isinstance(val, float) and math.isfinite(val) and val > ub + 1e-4 * (1 + abs(ub)):
+            return '%s bound %r (presolve_trivial_age_cones=%s) exceeds f at a point of X (%r); %s' % (key[0], val, key[1], ub, desc)
+    for pre in (False, True):
+        a, b = vals[('primal', pre)], vals[('dual', pre)]
+        if a[0] == b[0] == 'solved' and math.isfinite(a[1]) and math.isfinite(b[1]) and a[1] > b[1] + 1e-4 * (1 + abs(b[1])):
+            return 'primal bound %r exceeds dual bound %r (presolve=%s); %s' % (a[1], b[1], pre, desc)
+    for form in ('primal', 'dual'):
+        a, b = vals[(form, False)], vals[(form, True)]
+        if a[0] == b[0] == 'solved' and isinstance(a[1], float) and isinstance(b[1], float) and not close(a[1], b[1], 1e-4):
+            return ('%s bound changes from %r to %r when presolve_trivial_age_cones is switched on (the presolve may only remove AGE cones '
+                    'that are trivial); %s' % (form, a[1], b[1], desc))
+        if (a[0] == 'solved') != (b[0] == 'solved') and 'ECOS' not in str(a[1]) + str(b[1]):
+            return '%s relaxation: %r without and %r with presolve_trivial_age_cones; %s' % (form, a, b, desc)
+    return None
+
+
 HEADER = ('From Coq Require Import List Bool Arith ZArith QArith.\n'
           'From SageVerif Require Import Model.Expr Model.Sage Model.Covers Base.Corr.\nImport ListNotations.\n'
           'Definition model (x : list (list Q) * list sexpr * bool * bool) :=\n'
@@ -205,7 +265,7 @@ def covers_suite(ctx):
     for _ in range(ctx.n(150, 1500)):
         n = ctx.rng.randint(1, 3)
         m = ctx.rng.randint(2, 6)
-        nonneg = ctx.rng.random() < 0.6
+        nonneg = ctx.rng.choice([False, True, True, 'almost', 'almost'])
         alpha = sagecorr.gen_alpha(ctx.rng, m, n, nonneg)
         kind = ctx.rng.choice(['none', 'none', 'box', 'halfspace'])
         X, _ = sagecorr.make_domain(ctx.rng, n, kind)
@@ -221,7 +281,7 @@ def covers_suite(ctx):
             continue
         covs = [vlib.Some([bool(b) for b in con.ech.covers[i].tolist()]) if i in con.ech.U_I else None for i in range(m)]
         ctx.count('covers.domain', kind)
-        ctx.count('covers.nonneg_alpha', nonneg)
+        ctx.count('covers.nonneg_alpha', str(nonneg))
         cases.append(({'alpha': [[str(a) for a in r] for r in alpha], 'domain': kind, 'heuristic': heur},
                       cq((alpha, [c08.cell_desc(se) for se in con.c.flat], X is not None, heur)), cq(covs)))
     ctx.evaluations += len(cases)
@@ -239,7 +299,8 @@ def covers_suite(ctx):
 
 def run(ctx):
     covers_suite(ctx)
-    for name, f, reps in (('circuit', oracle_circuit, ctx.n(4, 30)), ('one_negative_box', oracle_one_negative_box, ctx.n(6, 60))):
+    for name, f, reps in (('circuit', oracle_circuit, ctx.n(4, 30)), ('one_negative_box', oracle_one_negative_box, ctx.n(6, 60)),
+                          ('conditional', oracle_conditional, ctx.n(40, 300))):
         for _ in range(reps):
             why = f(ctx.rng)
             ctx.evaluations += 1
